@@ -14,3 +14,9 @@ func (h *BaseMappingHandler) VerifHandleConnection(c io.ReadWriteCloser) { h.han
 // VerifSetTunnelManager replaces the handler's tunnel manager (C17 slot scenarios: a wrapper whose
 // RegisterTunnel is a gate, so that a tunnel can be closed between RegisterTunnel and Start).
 func (h *BaseMappingHandler) VerifSetTunnelManager(m tunnel.TunnelManager) { h.tunnelManager = m }
+
+// VerifAcquireSlot / VerifReleaseSlot: the two halves of the per-mapping slot protocol, callable in a
+// tight loop (C17 counter stress: no injectable call sits between the Load and the CompareAndSwap of
+// an acquisition, nor inside a release, so only real parallelism at full speed reaches those windows).
+func (h *BaseMappingHandler) VerifAcquireSlot() error { return h.acquireConnectionSlot() }
+func (h *BaseMappingHandler) VerifReleaseSlot()       { h.releaseConnectionSlot() }
